@@ -606,6 +606,8 @@ class Evaluator:
         k = as_int(iv)
         if k < 0 or k >= len(lst):
             raise Stuck('index', f'{k} of {len(lst)}')
+        if lst[k] is UNINIT_CELL:
+            raise Ambiguous('read of a cell fp.empty left uninitialised')
         return lst[k]
 
     def binop(self, op, a, b, ctx):
@@ -907,6 +909,16 @@ class Evaluator:
             if len({len(v) for v in vals}) > 1:
                 raise Ambiguous('zip of unequal lengths is undefined')
             return [tuple(t) for t in zip(*vals)]
+        if n == 'empty':
+            # fp.empty(d1, ..., dn): an n-d list of fresh cells (derived-semantics.rst, "Empty"); every row its own list
+            dims = [as_int(v, 'empty') for v in vals]
+            if not dims or any(d < 0 for d in dims):
+                raise Ambiguous('fp.empty without / with negative dimensions')
+
+            def mk(ds):
+                self.tick()
+                return [UNINIT_CELL for _ in range(ds[0])] if len(ds) == 1 else [mk(ds[1:]) for _ in range(ds[0])]
+            return mk(dims)
         if n == 'enumerate':
             if len(vals) != 1 or not isinstance(vals[0], list):
                 raise Stuck('type', 'enumerate')
@@ -934,8 +946,18 @@ def to_denotation(v):
     return den(v)
 
 
+class _Uninit:
+    def __repr__(self):
+        return 'UNINIT_CELL'
+
+
+UNINIT_CELL = _Uninit()
+
+
 def result_den(v):
     """Structure comparable with vlib.denote.deep_den of the implementation's result."""
+    if v is UNINIT_CELL:
+        raise Ambiguous('an uninitialised cell is returned')
     if isinstance(v, list):
         return ('L',) + tuple(result_den(x) for x in v)
     if isinstance(v, tuple):
